@@ -265,7 +265,8 @@ def _validate_part(scratch, part, events, trace_module, cfg, workers, timeout, t
     shutil.copy(os.path.join(SPEC, "trace", trace_module + ".tla"), os.path.join(wd, trace_module + ".tla"))
     r = run_tlc(wd, trace_module, cfgp, workers=workers, timeout=timeout,
                 env={"TRACE_FILE": path, "TRACE_CHUNK": str(chunk)}, heap="3g")
-    if r.error and ("Overflow when computing" in r.stdout or "StackOverflowError" in r.stdout) and _depth < 25:
+    if r.error and ("Overflow when computing" in r.stdout or "StackOverflowError" in r.stdout
+                    or "outside the fixed-point range" in r.stdout) and _depth < 25:
         # 32-bit arithmetic of the judge cannot hold this event: set it aside (verdict "skipped.range", counted in
         # the evidence, never a violation) and judge the others again
         ls = re.findall(r"^l = (\d+)", r.stdout[r.stdout.index("Error:"):], re.M)
